@@ -99,6 +99,15 @@ def _call(form, pipeline, out, K):
         return pipeline.run(out, full_output=True, kwargs=dict(K))
     if form == "func-dict":
         return pipeline.func(out).call_with_dict(dict(K))
+    if form in ("func-pickled", "func-deepcopied"):
+        # the wrapper travels (to a worker, into a closure) before it is called: it must stay the function of the WHOLE
+        # pipeline (e.g. a default declared only by a function that this output does not need still applies)
+        import copy as _copy
+
+        import cloudpickle as _cp
+        fo = pipeline.func(out)
+        fo = _cp.loads(_cp.dumps(fo)) if form == "func-pickled" else _copy.deepcopy(fo)
+        return fo(**K)
     if form == "func-full":
         return pipeline.func(out).call_full_output(**K)
     if form in ("positional", "positional-mixed"):
@@ -314,6 +323,8 @@ def run_one(v, idx, case, scratch, rng):
             forms = ["call", "run", "full"]
             if ctx in ("roots", "defaults-omitted"):
                 forms += ["func", "func-dict"]
+                if not getattr(pipeline, "_verif_scoped", False) and idx % 2 == 0:
+                    forms += ["func-pickled", "func-deepcopied"]
             if ctx == "roots" and not getattr(pipeline, "_verif_scoped", False):
                 # positional call forms take every root argument of the output, in the order the wrapper itself reports
                 try:
@@ -391,10 +402,80 @@ def run_one(v, idx, case, scratch, rng):
                 check_call(v, case, p2, log2, out, K, "call", "reordered")
 
 
+@__import__("dataclasses").dataclass
+class _Cfg:
+    """A dataclass used AS a pipeline function: its fields are the parameters, field defaults are parameter defaults."""
+
+    scale: object = "cfg-scale-default"
+    offset: object = "cfg-offset-default"
+
+
+def _use(x, cfg, scale="use-scale-default"):
+    return ("use", x, scale, cfg.scale, cfg.offset)
+
+
+def _use_nodefault(x, cfg, scale):
+    return ("use", x, scale, cfg.scale, cfg.offset)
+
+
+def dataclass_scenario(v, rng):
+    """A dataclass (or any class) as pipeline function: a field BOUND there plays no role anywhere else - another function's
+    free parameter of the same name takes that function's own default, or is missing; in every listing order and call form."""
+    from pipefunc import PipeFunc, Pipeline
+
+    for own_default in (True, False):
+        for order in (0, 1):
+            for bind in ("scale", "offset"):
+                if bind == "offset" and own_default:
+                    continue  # `scale` free in both with two different defaults: rightly refused at construction
+                fs = [PipeFunc(_Cfg, "cfg", bound={bind: "BOUND"}), PipeFunc(_use if own_default else _use_nodefault, "y")]
+                if order:
+                    fs.reverse()
+                w = dict(functions=[f"PipeFunc(dataclass Cfg(scale=<default>, offset=<default>), 'cfg', bound={{{bind!r}: 'BOUND'}})",
+                                    f"PipeFunc(use(x, cfg, scale{'=<default>' if own_default else ''}), 'y')"], listing_order=order)
+                try:
+                    with quiet():
+                        p = Pipeline(fs)
+                except Exception as e:  # noqa: BLE001
+                    v.bad(exc_sig(e, "dataclass-function:refused-construct"), f"valid pipeline refused: {exc_msg(e)}", **w)
+                    continue
+                for given in ({}, {"scale": "S"}, {"offset": "O"}, {"scale": "S", "offset": "O"}):
+                    K = {"x": "X", **given}
+                    # reference: the two parameters named `scale` are the same pipeline argument unless bound in Cfg
+                    if bind == "scale":
+                        cfg_scale = "BOUND"
+                        use_scale = given.get("scale", "use-scale-default" if own_default else None)
+                        cfg_offset = given.get("offset", "cfg-offset-default")
+                    else:
+                        cfg_offset = "BOUND"
+                        # (scale is free in both: one pipeline argument; its default is declared by Cfg - and by use, if it has one)
+                        use_scale = given.get("scale", "cfg-scale-default")
+                        cfg_scale = use_scale
+                        if "offset" in given:
+                            continue  # offset is bound: a keyword for it is surplus (C12)
+                    expect = None if use_scale is None else ("use", "X", use_scale, cfg_scale, cfg_offset)
+                    for form, call in (("call", lambda: p("y", **K)), ("run", lambda: p.run("y", kwargs=dict(K))),
+                                       ("func", lambda: p.func("y")(**K)), ("full", lambda: p.run("y", full_output=True, kwargs=dict(K))["y"])):
+                        v.count("dataclass_function_calls")
+                        try:
+                            with quiet():
+                                got = call()
+                        except Exception as e:  # noqa: BLE001
+                            if expect is not None:
+                                v.bad(exc_sig(e, f"dataclass-function:rejected-valid-call/{form}"), f"call with {K} raised {exc_msg(e)}", bound_field=bind, **w)
+                            continue
+                        if expect is None:
+                            v.bad(f"dataclass-function:accepted-call-with-missing-argument/{form}", f"call with {K} returned {got!r:.200} although `scale` of "
+                                  "`use` has no value (the field of that name is bound in the dataclass only)", bound_field=bind, **w)
+                        elif tuple(got) != expect:
+                            v.bad(f"dataclass-function:value/{form}", f"call with {K} returned {got!r:.200}, expected {expect!r:.200}", bound_field=bind, **w)
+
+
 def run_case(desc):
     v = V()
     if desc.get("start", 1) == 0:
         typed_values(v)
+        dataclass_scenario(v, random.Random(0))
     keys = []
     sample = None
     with tmpdir("c02-") as scratch:
